@@ -15,6 +15,7 @@ fn wrap(sgr: Cmd, sp: Sp) -> Op {
         kind: Kind::Feed,
         cmd: Seq(vec![sgr, Cr, Text("x".into()), El(None)]),
         text,
+        levels: 0,
     }
 }
 
@@ -133,6 +134,13 @@ fn alpha_blank(cfg: &Cfg) -> Vec<Op> {
         c(DecRst(vec![1047])),
         c(DecSet(vec![1049])),
         t("yz"),
+        // every way of PRINTING a cell: repeated, double-width, inserted, translated, zero-width
+        c(Rep(None)),
+        c(Rep(Some(2))),
+        t("漢"),
+        c(Seq(vec![Sm(vec![4]), Text("i".into()), Rm(vec![4])])),
+        c(Seq(vec![Desig(0, true), Text("q".into()), Desig(0, false)])),
+        c(Cub(Some(1))),
     ];
     v.push(Op::resize(cfg.cols, cfg.rows + 1));
     v
